@@ -15,13 +15,14 @@ def sh(cmd, cwd, timeout=1500):
 def clean(wt):
     sh("git checkout -q -- . && git clean -fdq -e _out", wt)
 
-def verify(pid, k):
-    wt = "/tmp/wt/%s" % pid
+def verify(pid, k, wtname=None, outk=None):
+    wt = "/tmp/wt/%s" % (wtname or pid)
     d = "%s/_out/m%d" % (wt, k)
+    outk = outk or k
     if not os.path.exists(d + "/patch.diff"):
         return None
     meta = json.load(open(d + "/meta.json"))
-    res = {"id": "%s-m%d" % (pid, k), "property": pid, "title": meta.get("title"), "needs": meta.get("needs"), "demo_cmd": meta.get("demo_cmd")}
+    res = {"id": "%s-m%d" % (pid, outk), "property": pid, "title": meta.get("title"), "needs": meta.get("needs"), "demo_cmd": meta.get("demo_cmd")}
     clean(wt)
     rc, out = sh("git apply --check _out/m%d/patch.diff && git apply _out/m%d/patch.diff" % (k, k), wt)
     res["applies"] = rc == 0
@@ -40,7 +41,7 @@ def verify(pid, k):
     clean(wt)
     res["confirmed"] = all(res[x] for x in ("applies", "builds", "suite_passes", "demo_fails_with_patch", "demo_passes_without"))
     if res["confirmed"]:
-        dst = "/verif/seeded/%s-m%d" % (pid, k)
+        dst = "/verif/seeded/%s-m%d" % (pid, outk)
         os.makedirs(dst, exist_ok=True)
         for f in os.listdir(d):
             if os.path.isfile(os.path.join(d, f)):
@@ -54,9 +55,12 @@ def verify(pid, k):
 
 if __name__ == "__main__":
     allres = []
-    for pid in sys.argv[1:]:
+    for arg in sys.argv[1:]:
+        # "C16" (worktree /tmp/wt/C16, outputs m1,m2) or "r2_C16:C16:3" (worktree r2_C16, outputs C16-m3, C16-m4)
+        parts = arg.split(":")
+        wtname, pid, base = (parts[0], parts[1], int(parts[2])) if len(parts) == 3 else (arg, arg, 1)
         for k in (1, 2):
-            r = verify(pid, k)
+            r = verify(pid, k, wtname, base + k - 1)
             if r:
                 allres.append(r)
                 print(json.dumps({x: r[x] for x in ("id", "confirmed", "applies", "builds", "suite_passes", "demo_fails_with_patch", "demo_passes_without")}), flush=True)
